@@ -79,15 +79,24 @@ Theorem C04_unpickle_no_duplicate :
     exists s', step cfg s (OUnpickle p) = (Raise EValue, s').
 Proof. exact C04_unpickle_no_duplicate_proof_alt. Qed.
 
-(* With strong caching on and no unpickling in the history, get never hands out an instance of a
-   deleted row. *)
+(* With no unpickling in the history, get never hands out an instance of a deleted row -- with strong
+   caching on or off. *)
 Theorem C04_deleted_not_returned_partial :
   forall (cfg : config) (ops : list op) (k : kind) (id id' : Z) (tok : option nat) (s' : st),
-    forallb guard04 ops = true -> doCache cfg = true -> forallb no_unpickle ops = true ->
+    forallb guard04 ops = true -> forallb no_unpickle ops = true ->
     let s := run cfg ops in
     step cfg s (OGet k id) = (Ret (RObj id' tok), s') ->
     assoc id (t_rows (tbl s' k)) <> None.
-Proof. exact C04_deleted_not_returned_proof_alt. Qed.
+Proof. exact C04_deleted_not_returned_anycache_proof. Qed.
+
+(* Whatever the history (unpickling included), a destroyed instance is never registered in the cache. *)
+Theorem C04_cached_is_current :
+  forall (cfg : config) (ops : list op) (k : kind) (id : Z) (o : nat),
+    forallb guard04 ops = true ->
+    let s := run cfg ops in
+    (In (id, o) (c_strong (cch s k)) \/ In (id, o) (c_weak (cch s k))) ->
+    i_obsolete (get_inst s o) = false.
+Proof. exact OrmInvC04.C04_cached_is_current. Qed.
 
 (* ------------------------------------------------------------------ what is FALSE of the code (open findings) *)
 Definition cfgT : config := {| doCache := true; cullFreq := 100; cullFrac := 2 |}.
@@ -99,10 +108,10 @@ Lemma C04_expire_purges_refuted :
   fst (step cfgT s (OGet Eager 1)) = Ret (RObj 1 None) /\ held s 0%nat /\ current s 0%nat /\ is_row s 0%nat Eager 1.
 Proof. vm_compute. repeat split; auto. Qed.
 
-(* cache=False: the destroyed row is handed out again *)
-Lemma C04_nocache_destroyed_refuted :
+(* fixed (e3b93b4): on a cache=False connection the destroyed row used to be handed out again *)
+Example C04_nocache_destroyed_now_not_found :
   let s := run cfgF [OCreate Eager [(1%nat, VInt 100)]; ODestroy 0] in
-  fst (step cfgF s (OGet Eager 1)) = Ret (RObj 1 (Some 0%nat)) /\ assoc 1 (t_rows (tbl s Eager)) = None.
+  fst (step cfgF s (OGet Eager 1)) = Raise ENotFound /\ assoc 1 (t_rows (tbl s Eager)) = None.
 Proof. vm_compute. repeat split; auto. Qed.
 
 (* unpickling a pickle of a destroyed row registers the instance again; get then returns it *)
@@ -142,3 +151,4 @@ Print Assumptions C04_byalt_returns_held.
 Print Assumptions C04_select_returns_held.
 Print Assumptions C04_unpickle_no_duplicate.
 Print Assumptions C04_deleted_not_returned_partial.
+Print Assumptions C04_cached_is_current.
